@@ -4,6 +4,7 @@ src/zope/interface/interface.py  ->  coq/Gen/AttrsKernel.v   (property C15).
 Translated (class.method):
   Specification.get                      memo handling + walk over an order with ``direct``
   Specification.changed                  only what it does to the memo and that every dependent is told
+  InterfaceClass.__compute_attrs (shape check: the direct table is a new dict, assigned once by __init__)
   InterfaceClass.direct / names / __iter__ / namesAndDescriptions / getDescriptionFor (= __getitem__) /
                  __contains__ / queryDescriptionFor / validateInvariants / queryTaggedValue /
                  getTaggedValue / getTaggedValueTags
@@ -80,6 +81,13 @@ def _find_method(cls, name, signature):
     if ast.unparse(fn.args) != signature:
         raise TranslationError("%s.%s has signature (%s), expected (%s)" % (cls.name, name, ast.unparse(fn.args), signature))
     return fn
+
+
+def _find_method_any(cls, name):
+    found = [n for n in cls.body if isinstance(n, ast.FunctionDef) and n.name == name]
+    if len(found) != 1:
+        raise TranslationError("%s.%s: found %d definitions" % (cls.name, name, len(found)))
+    return found[0]
 
 
 def _match(cls, name, signature, template):
@@ -203,6 +211,21 @@ for <<base>> in <<order:%s>>:
     <<keys>>.update(<<base>>.getDirectTaggedValueTags())
 return <<keys>>""" % ORDER
 
+# the direct table is a NEW dict built once at creation (not the caller's dict), holding only
+# descriptions; the ignored keys may change with the Python version
+T_COMPUTE = """\
+def update_value(aname, aval):
+    if isinstance(aval, Attribute):
+        aval.interface = self
+        if not aval.__name__:
+            aval.__name__ = aname
+    elif isinstance(aval, FunctionType):
+        aval = fromFunction(aval, self, name=aname)
+    else:
+        raise InvalidInterface('Concrete attribute, ' + aname)
+    return aval
+return {aname: update_value(aname, aval) for aname, aval in attrs.items() if aname not in (<<skip:[^()]*>>) and aval is not _decorator_non_return}"""
+
 E_QUERY = "return self.__tagged_values.get(tag, default) if self.__tagged_values else default"
 E_GET = """\
 if not self.__tagged_values:
@@ -257,6 +280,25 @@ def translate_tree(tree):
         if any(isinstance(n, ast.Assign) and any(isinstance(t, ast.Name) and t.id == nm for t in n.targets)
                for n in icls.body):
             raise TranslationError("InterfaceClass rebinds %s" % nm)
+
+    # ---- the direct table: written once, by __init__, with a fresh dict of descriptions
+    _match(icls, "__compute_attrs", "self, attrs", T_COMPUTE)
+    stores = [n for n in ast.walk(icls) if isinstance(n, ast.Attribute)
+              and n.attr in ("__attrs", "_InterfaceClass__attrs") and isinstance(n.ctx, (ast.Store, ast.Del))]
+    init = _find_method(icls, "__init__", ast.unparse(_find_method_any(icls, "__init__").args))
+    own = [st for st in init.body if isinstance(st, ast.Assign)
+           and ast.unparse(st) == "self.__attrs = self.__compute_attrs(attrs)"]
+    if len(stores) != 1 or len(own) != 1:
+        raise TranslationError("InterfaceClass.__attrs must be assigned exactly once, at the top level of __init__, "
+                               "as self.__attrs = self.__compute_attrs(attrs) (found %d stores)" % len(stores))
+    for n in ast.walk(icls):
+        # nobody hands the table out or mutates it in place
+        if isinstance(n, ast.Call) and isinstance(n.func, ast.Attribute) and isinstance(n.func.value, ast.Attribute) \
+                and n.func.value.attr == "__attrs" and n.func.attr not in ("get", "keys", "items", "copy"):
+            raise TranslationError("self.__attrs.%s(...) at line %d" % (n.func.attr, n.lineno))
+        if isinstance(n, ast.Subscript) and isinstance(n.value, ast.Attribute) and n.value.attr == "__attrs" \
+                and isinstance(n.ctx, (ast.Store, ast.Del)):
+            raise TranslationError("self.__attrs[...] is written at line %d" % n.lineno)
 
     # ---- InterfaceClass.direct
     _match(icls, "direct", "self, name", T_DIRECT)
